@@ -1058,4 +1058,38 @@ Section Search.
       + rewrite !map_wp_wit. exact (node_disjoint C k iter_id L R RL RR).
       + apply Hbob; unfold aw_of; apply Permutation_map; assumption.
   Qed.
+  Notation rcb_core := (rcb_core C ltb leb mid dist addc zero inf within_tol false true true).
+
+  Lemma combine_wit (its : list item) (p : list N) :
+    map (fun x : item * N => (co (fst x), wt (fst x), snd x)) (combine its p)
+    = combine (combine (map co its) (map wt its)) p.
+  Proof.
+    revert p; induction its as [|it t IH]; intros [|i p]; cbn [map combine fst snd]; try reflexivity.
+    f_equal. apply IH.
+  Qed.
+
+  (* C04, generic form: for every split tree and fuel, if the call returns Ok
+     the partition is a bisection tree all of whose nodes are balanced *)
+  Theorem rcb_core_balanced : forall fuel sched D k its sum bb p0 p,
+    Forall fitem its -> BoxOK bb its -> sum = tw its ->
+    map ix its = seq 0 (length p0) -> its <> [] ->
+    rcb_core fuel sched D k its sum bb p0 = Ok p ->
+    exists t, Permutation t (combine (combine (map co its) (map wt its)) p) /\ BalTree D k 0%nat t.
+  Proof.
+    intros fuel sched D k its sum bb p0 p Hf Hbox Hsum Hix Hne H.
+    assert (Hv : Forall (vitem C valid) its).
+    { rewrite Forall_forall in *. intros it Hit. apply fitem_vitem, Hf, Hit. }
+    destruct (rcb_core_asg C ltb leb mid dist addc zero inf within_tol false true true valid
+                lt_irrefl lt_negtrans le_lt fuel sched D k its sum bb p0 p Hv Hix Hne H)
+      as (asg & off & Hrec & Hge & Hlen & Hperm).
+    pose proof (rcb_rec_balanced _ _ _ _ _ _ _ _ _ _ Hf Hbox Hsum Hrec) as T.
+    exists (map (remap C (fun i => (i - off)%N)) (map wit asg)). split.
+    - rewrite <- combine_wit. rewrite map_map.
+      eapply perm_trans; [|apply Permutation_map, Hperm]. rewrite map_map.
+      apply Permutation_refl.
+    - apply (BalTree_map C ltb within_tol); [exact T|].
+      intros x y Hx Hy Q. apply in_map_iff in Hx, Hy.
+      destruct Hx as (x' & <- & Hx), Hy as (y' & <- & Hy). unfold wit in *. cbn [snd] in *.
+      specialize (Hge _ Hx) as G1. specialize (Hge _ Hy) as G2. lia.
+  Qed.
 End Search.
